@@ -145,6 +145,12 @@ class RecurrenceNetwork(RecurrencePlot, Network):
                              node_weights=node_weights,
                              silence_level=silence_level)
 
+    def __cache_state__(self):
+        # both bases contribute mutable state (embedding / adjacency); the
+        # adjacency counter exists only once Network.__init__ has run
+        return (RecurrencePlot.__cache_state__(self) +
+                (getattr(self, "_mut_A", 0),))
+
     def __str__(self):
         """
         Returns a string representation.
